@@ -217,6 +217,16 @@ def rule_enter_sites(ctx: Ctx, kinds: Set[str], clause: str):
                     continue
                 found = True
                 arg = ev.call.args[0] if ev.call.args else None
+                if ev.deferred and isinstance(ev.call.func, ast.Attribute):
+                    # the call sits in a lambda handed to a helper that applies it (spliced, beta-reduced): judge the application
+                    recv_d = flow.dump(ev.call.func.value)
+                    for e2 in p.events:
+                        c2 = e2.call
+                        if not e2.deferred and isinstance(c2, ast.Call) and isinstance(c2.func, ast.Attribute) and c2.func.attr == "enter" \
+                                and flow.dump(c2.func.value) == recv_d and c2.args and e2.raw is not call:
+                            ev = flow.Event(e2.raw, c2, e2.stmt, False, "enter")
+                            arg = c2.args[0]
+                            break
                 poss = possible_current_classes(repo, fn)
                 h2 = holders if poss is None else sorted(set(holders) & poss)
                 r2 = rejecting_holders if poss is None else sorted(set(rejecting_holders) & poss)
